@@ -36,18 +36,18 @@ pub enum Node {
 
 // None when an intermediate result leaves the range of Decimal.
 fn gamma(a: Decimal) -> Option<Decimal> {
-    let mut s = Decimal::new(2485740891387535655, 27);
+    let mut s = Decimal::new(2485740891387535655, 23);
     if a < Decimal::new(5, 1) {
-        s = s.checked_add(Decimal::new(1051423785817219742, 20).checked_div(Decimal::new(1, 0).checked_sub(a)?)?)?;
-        s = s.checked_add(Decimal::new(-3456870972220162354, 22).checked_div(Decimal::new(2, 0).checked_sub(a)?)?)?;
-        s = s.checked_add(Decimal::new(4512277094668948237, 20).checked_div(Decimal::new(3, 0).checked_sub(a)?)?)?;
-        s = s.checked_add(Decimal::new(-2982852253235766557, 22).checked_div(Decimal::new(4, 0).checked_sub(a)?)?)?;
-        s = s.checked_add(Decimal::new(1056397115771267131, 22).checked_div(Decimal::new(5, 0).checked_sub(a)?)?)?;
-        s = s.checked_add(Decimal::new(-1954287731916458696, 23).checked_div(Decimal::new(6, 0).checked_sub(a)?)?)?;
-        s = s.checked_add(Decimal::new(1709705434044412243, 24).checked_div(Decimal::new(7, 0).checked_sub(a)?)?)?;
-        s = s.checked_add(Decimal::new(-5719261174043057813, 24).checked_div(Decimal::new(8, 0).checked_sub(a)?)?)?;
-        s = s.checked_add(Decimal::new(4633994733599056367, 28).checked_div(Decimal::new(9, 0).checked_sub(a)?)?)?;
-        s = s.checked_add(Decimal::new(-2719949084886077, 28).checked_div(Decimal::new(10, 0).checked_sub(a)?)?)?;
+        s = s.checked_add(Decimal::new(1051423785817219742, 18).checked_div(Decimal::new(1, 0).checked_sub(a)?)?)?;
+        s = s.checked_add(Decimal::new(-3456870972220162354, 18).checked_div(Decimal::new(2, 0).checked_sub(a)?)?)?;
+        s = s.checked_add(Decimal::new(4512277094668948237, 18).checked_div(Decimal::new(3, 0).checked_sub(a)?)?)?;
+        s = s.checked_add(Decimal::new(-2982852253235766557, 18).checked_div(Decimal::new(4, 0).checked_sub(a)?)?)?;
+        s = s.checked_add(Decimal::new(1056397115771267131, 18).checked_div(Decimal::new(5, 0).checked_sub(a)?)?)?;
+        s = s.checked_add(Decimal::new(-1954287731916458696, 19).checked_div(Decimal::new(6, 0).checked_sub(a)?)?)?;
+        s = s.checked_add(Decimal::new(1709705434044412243, 20).checked_div(Decimal::new(7, 0).checked_sub(a)?)?)?;
+        s = s.checked_add(Decimal::new(-5719261174043057813, 22).checked_div(Decimal::new(8, 0).checked_sub(a)?)?)?;
+        s = s.checked_add(Decimal::new(4633994733599056367, 24).checked_div(Decimal::new(9, 0).checked_sub(a)?)?)?;
+        s = s.checked_add(Decimal::new(-2719949084886077039, 27).checked_div(Decimal::new(10, 0).checked_sub(a)?)?)?;
         let compute_sin = Decimal::new(3141592653589793238, 18).checked_mul(a)?.checked_sin()?; // 3.14159265358979323846264338327950288419716939937510582
         let compute_pow = a
             .checked_sub(Decimal::new(10400511, 6))?
@@ -60,16 +60,16 @@ fn gamma(a: Decimal) -> Option<Decimal> {
                 .checked_mul(compute_pow)?,
         )
     } else {
-        s = s.checked_add(Decimal::new(1051423785817219742, 20).checked_div(a)?)?;
-        s = s.checked_add(Decimal::new(-3456870972220162354, 22).checked_div(a.checked_add(Decimal::new(1, 0))?)?)?;
-        s = s.checked_add(Decimal::new(4512277094668948237, 20).checked_div(a.checked_add(Decimal::new(2, 0))?)?)?;
-        s = s.checked_add(Decimal::new(-2982852253235766557, 22).checked_div(a.checked_add(Decimal::new(3, 0))?)?)?;
-        s = s.checked_add(Decimal::new(1056397115771267131, 22).checked_div(a.checked_add(Decimal::new(4, 0))?)?)?;
-        s = s.checked_add(Decimal::new(-1954287731916458696, 23).checked_div(a.checked_add(Decimal::new(5, 0))?)?)?;
-        s = s.checked_add(Decimal::new(1709705434044412243, 24).checked_div(a.checked_add(Decimal::new(6, 0))?)?)?;
-        s = s.checked_add(Decimal::new(-5719261174043057813, 24).checked_div(a.checked_add(Decimal::new(7, 0))?)?)?;
-        s = s.checked_add(Decimal::new(4633994733599056367, 28).checked_div(a.checked_add(Decimal::new(8, 0))?)?)?;
-        s = s.checked_add(Decimal::new(-2719949084886077, 28).checked_div(a.checked_add(Decimal::new(9, 0))?)?)?;
+        s = s.checked_add(Decimal::new(1051423785817219742, 18).checked_div(a)?)?;
+        s = s.checked_add(Decimal::new(-3456870972220162354, 18).checked_div(a.checked_add(Decimal::new(1, 0))?)?)?;
+        s = s.checked_add(Decimal::new(4512277094668948237, 18).checked_div(a.checked_add(Decimal::new(2, 0))?)?)?;
+        s = s.checked_add(Decimal::new(-2982852253235766557, 18).checked_div(a.checked_add(Decimal::new(3, 0))?)?)?;
+        s = s.checked_add(Decimal::new(1056397115771267131, 18).checked_div(a.checked_add(Decimal::new(4, 0))?)?)?;
+        s = s.checked_add(Decimal::new(-1954287731916458696, 19).checked_div(a.checked_add(Decimal::new(5, 0))?)?)?;
+        s = s.checked_add(Decimal::new(1709705434044412243, 20).checked_div(a.checked_add(Decimal::new(6, 0))?)?)?;
+        s = s.checked_add(Decimal::new(-5719261174043057813, 22).checked_div(a.checked_add(Decimal::new(7, 0))?)?)?;
+        s = s.checked_add(Decimal::new(4633994733599056367, 24).checked_div(a.checked_add(Decimal::new(8, 0))?)?)?;
+        s = s.checked_add(Decimal::new(-2719949084886077039, 27).checked_div(a.checked_add(Decimal::new(9, 0))?)?)?;
         let compute_pow = a
             .checked_add(Decimal::new(10400511, 6))?
             .checked_div(Decimal::new(2718281828459045235, 18))?
